@@ -235,6 +235,16 @@ func main() {
 		die2("harness does not build against /repo's tree:\n%v", buildErr)
 	}
 
+	fuzzBin := ""
+	for _, u := range pl.Units {
+		if u.Fuzz != "" && !(u.ThoroughOnly && mode != "thorough") && fuzzBin == "" {
+			fb, err := buildKind(pl, work, false, true)
+			if err != nil {
+				die2("fuzz binary does not build:\n%v", err)
+			}
+			fuzzBin = fb
+		}
+	}
 	// jobs
 	var jobs []*job
 	for _, u := range pl.Units {
@@ -257,8 +267,12 @@ func main() {
 			n = 1
 		}
 		for i := 0; i < n; i++ {
-			jobs = append(jobs, &job{unit: u, shard: i, shards: n, bin: bins[u.Race],
-				log: filepath.Join(work, fmt.Sprintf("%s.s%d.log", u.Test, i)), timeout: time.Duration(to) * time.Second})
+			bin := bins[u.Race]
+			if u.Fuzz != "" {
+				bin = fuzzBin
+			}
+			jobs = append(jobs, &job{unit: u, shard: i, shards: n, bin: bin,
+				log: filepath.Join(work, fmt.Sprintf("%s%s.s%d.log", u.Test, u.Fuzz, i)), timeout: time.Duration(to) * time.Second})
 		}
 	}
 	slots := float64(runtime.NumCPU())
@@ -271,11 +285,19 @@ func main() {
 }
 
 func build(pl plan, work string, race bool) (string, error) {
+	return buildKind(pl, work, race, false)
+}
+
+func buildKind(pl plan, work string, race, fuzz bool) (string, error) {
 	name := "test.bin"
 	args := []string{"test", "-c", "-tags", "verif", "-vet=off"}
 	if race {
 		name = "test.race.bin"
 		args = append(args, "-race")
+	}
+	if fuzz {
+		name = "test.fuzz.bin"
+		args = append(args, "-fuzz=Fuzz") // coverage instrumentation for native fuzzing
 	}
 	bin := filepath.Join(work, name)
 	if modfile != "" {
